@@ -35,6 +35,9 @@ pub struct ProverCfg {
     /// register the recompose table before the Poseidon table (table order in the proof is the
     /// registration order, not the lexicographic order of the op types)
     pub npo_reversed: bool,
+    /// recompose operations packed per row of the recompose tables (TablePacking::with_npo_lanes
+    /// override; the registered table provers / AIR builders keep their default of 1)
+    pub recompose_lanes: usize,
 }
 impl Default for ProverCfg {
     fn default() -> Self {
@@ -50,6 +53,7 @@ impl Default for ProverCfg {
             poseidon1: false,
             poseidon_both: false,
             npo_reversed: false,
+            recompose_lanes: 1,
         }
     }
 }
@@ -57,7 +61,7 @@ impl ProverCfg {
     pub fn to_json(&self) -> serde_json::Value {
         serde_json::json!({"public_lanes": self.public_lanes, "alu_lanes": self.alu_lanes, "horner_k": self.horner_k,
             "min_height": self.min_height, "profile_standard": self.profile_standard,
-            "poseidon": self.npo.poseidon, "recompose": self.npo.recompose, "poseidon_w32": self.poseidon_w32, "poseidon1": self.poseidon1, "poseidon_both": self.poseidon_both, "npo_reversed": self.npo_reversed})
+            "poseidon": self.npo.poseidon, "recompose": self.npo.recompose, "poseidon_w32": self.poseidon_w32, "poseidon1": self.poseidon1, "poseidon_both": self.poseidon_both, "npo_reversed": self.npo_reversed, "recompose_lanes": self.recompose_lanes})
     }
     pub fn from_json(v: &serde_json::Value) -> Self {
         let g = |k: &str, d: usize| v.get(k).and_then(|x| x.as_u64()).map(|x| x as usize).unwrap_or(d);
@@ -74,6 +78,7 @@ impl ProverCfg {
             poseidon1: b("poseidon1", false),
             poseidon_both: b("poseidon_both", false),
             npo_reversed: b("npo_reversed", false),
+            recompose_lanes: g("recompose_lanes", 1),
         }
     }
     pub fn swarm(rng: &mut crate::core::prng::Rng, npo: BuilderOpts) -> Self {
@@ -89,6 +94,7 @@ impl ProverCfg {
             poseidon1: false,
             poseidon_both: false,
             npo_reversed: false,
+            recompose_lanes: if npo.recompose { *rng.pick(&[1, 1, 2, 3]) } else { 1 },
         }
     }
 }
@@ -307,9 +313,12 @@ macro_rules! binomial_universe {
         pub struct $name;
         impl $name {
             pub fn packing(cfg: &ProverCfg) -> p3_circuit_prover::TablePacking {
-                p3_circuit_prover::TablePacking::new(cfg.public_lanes, cfg.alu_lanes)
-                    .with_horner_pack_k(cfg.horner_k)
-                    .with_min_trace_height(cfg.min_height)
+                let p = p3_circuit_prover::TablePacking::new(cfg.public_lanes, cfg.alu_lanes).with_horner_pack_k(cfg.horner_k).with_min_trace_height(cfg.min_height);
+                if cfg.recompose_lanes > 1 {
+                    p.with_npo_lanes(p3_circuit::ops::NpoTypeId::recompose(), cfg.recompose_lanes).with_npo_lanes(p3_circuit::ops::NpoTypeId::recompose_with_coeff_lookups(), cfg.recompose_lanes)
+                } else {
+                    p
+                }
             }
             pub fn config() -> crate::uni::uparams::$params::MyConfig {
                 $mkcfg()
